@@ -565,6 +565,7 @@ impl Database {
             let mut db = self.map.write().unwrap();
             match i32::from_str_radix(
                 &db.get(&key.to_string())
+                    .filter(|v| v.state != ValueStatus::Deleted) // a removed key counts from 0
                     .unwrap_or(&Value::from("0"))
                     .to_string(),
                 10,
